@@ -50,15 +50,16 @@ Record best := mkbest { b_channels : list nat; b_amplitude : list Z; b_best : na
 Definition wcol (W : list (list Z)) (rows : list nat) (j : nat) : list Z :=
   map (fun i => nth j (nth i W []) 0) rows.
 Definition dotZ (a b : list Z) : Z := fold_right Z.add 0 (map (fun xy => fst xy * snd xy) (combine a b)).
-(* one column of np.dot(x, mat): out[s] = sum_i x[s, i] * w[i] *)
-Definition ucol (cols : list (list Z)) (w : list Z) (ns : nat) : list Z :=
-  map (fun s => dotZ (map (fun col => nth s col 0) cols) w) (seq 0 ns).
+(* one column of np.dot(x, mat) * template_scaling: out[s] = (sum_i x[s, i] * w[i]) * scale *)
+Definition ucol (cols : list (list Z)) (w : list Z) (ns : nat) (scale : Z) : list Z :=
+  map (fun s => dotZ (map (fun col => nth s col 0) cols) w * scale) (seq 0 ns).
 Definition n_samples (cols : list (list Z)) : nat := match cols with c :: _ => length c | [] => 0%nat end.
 
 Record dataset := mkds {
   d_templates : list (list (list Z));       (* sparse_templates.data[k], as columns *)
   d_cols : option (list (list Z));          (* sparse_templates.cols (template_ind.npy), one row per template *)
   d_wmi : list (list Z);                    (* self.wmi, rows *)
+  d_scale : Z;                              (* getattr(self, 'template_scaling', 1.0) *)
   d_pos : list pos;                         (* channel_positions *)
   d_shanks : list Z;                        (* channel_shanks *)
   d_nclosest : Z;                           (* n_closest_channels (class attribute, 12) *)
@@ -113,17 +114,17 @@ Definition find_best_channels (P : list pos) (shanks : list Z) (nclosest : Z) (a
       end
   end.
 
-(* _unwhiten(x): np.dot(x, wmi), all channels *)
-Definition unwhiten_dense (W : list (list Z)) (cols : list (list Z)) : option (list (list Z)) :=
+(* _unwhiten(x): np.dot(x, wmi) * template_scaling, all channels *)
+Definition unwhiten_dense (W : list (list Z)) (scale : Z) (cols : list (list Z)) : option (list (list Z)) :=
   if Nat.eqb (length cols) (length W)                                    (* assert x.shape[1] == mat.shape[0] *)
-  then Some (map (fun j => ucol cols (wcol W (seq 0 (length W)) j) (n_samples cols)) (seq 0 (length W)))
+  then Some (map (fun j => ucol cols (wcol W (seq 0 (length W)) j) (n_samples cols) scale) (seq 0 (length W)))
   else None.
 
 (* the (optionally unwhitened) dense template, all channels *)
 Definition dense_full (d : dataset) (r : request) : option (list (list Z)) :=
   match nth_error (d_templates d) (r_tid r) with
   | None => None
-  | Some cols => if r_unwhiten r then unwhiten_dense (d_wmi d) cols else Some cols
+  | Some cols => if r_unwhiten r then unwhiten_dense (d_wmi d) (d_scale d) cols else Some cols
   end.
 
 Definition chan_ok (nc : nat) (c : Z) : bool := (0 <=? c) && (c <? Z.of_nat nc).
@@ -168,7 +169,7 @@ Definition get_template_sparse (d : dataset) (table : list (list Z)) (r : reques
       let ids := map (fun cc => Z.to_nat (snd cc)) s2 in
       let template :=
         if r_unwhiten r
-        then map (fun cj => ucol kcols (wcol (d_wmi d) ids cj) (n_samples cols)) ids   (* wmi[np.ix_(ids, ids)] *)
+        then map (fun cj => ucol kcols (wcol (d_wmi d) ids cj) (n_samples cols) (d_scale d)) ids   (* wmi[np.ix_(ids, ids)] *)
         else kcols in
       let amp := map ptp template in
       match amp with
